@@ -43,7 +43,7 @@ def main():
         'hooks': {
             'guard': 'EVENTPP_VERIF',
             'enable': 'harnesses are compiled with -DEVENTPP_VERIF -I/repo/include (clang++-14 to IR for the engine, g++/clang++ natively for replay)',
-            'baseline_off_cmd': 'cmake --build /repo/_build_tests -j16 && ctest --test-dir /repo/_build_tests -j8 --timeout 900',
+            'baseline_off_cmd': '/verif/run_baseline.sh',
             'source_commits': props.HOOK_COMMITS,
             'add_only': True,
         },
